@@ -218,6 +218,26 @@ def rule_rec(ctx) -> RuleResult:
                 res.inst(f"{fn.qualname}: sort order {s.value.value!r}", ok=ok)
                 if not ok:
                     res.find(fn.cls.name if fn.cls else fn.module.short, fn.prop or fn.name, f"sort field {s.value.value!r} not in {dt}", f"{fn.module.relpath}:{s.value.lineno}", "")
+    # comparisons against the "Start index" column use a start index (record position 0 / field "Start index"), not a row number
+    did = conc.methods["delete_index_data"]
+    defs = {}
+    for a in ast.walk(did.node):
+        if isinstance(a, ast.Assign):
+            tg = a.targets[0].elts if isinstance(a.targets[0], ast.Tuple) else [a.targets[0]]
+            vs = a.value.elts if isinstance(a.value, ast.Tuple) and len(a.value.elts) == len(tg) else [a.value] * len(tg)
+            for t_, v_ in zip(tg, vs):
+                if isinstance(t_, ast.Name):
+                    defs[t_.id] = v_
+    for cmp_ in [x for x in ast.walk(did.node) if isinstance(x, ast.Compare) and "'Start index'" in unparse(x.left)]:
+        other = cmp_.comparators[0]
+        src = defs.get(other.id) if isinstance(other, ast.Name) else other
+        txt = unparse(src) if src is not None else ""
+        ok = txt.endswith("[0]") or "'Start index'" in txt
+        res.inst(f"delete_index_data: `{unparse(cmp_)[:60]}` compares start indices with {txt[:40]}", nontrivial=True, ok=ok)
+        if not ok:
+            res.find("Concatenator", "delete_index_data", f"start indices compared with {unparse(other)} = {txt[:40]}", f"{did.module.relpath}:{cmp_.lineno}",
+                     "after deleting a slice, the rows to shift are selected by comparing their start index with something that is not a start "
+                     "index (a row number): other holes' rows are shifted or left behind, their values read back as foreign data")
     # positional uses in the concatenator
     for name in ("delete_index_data", "fetch_values"):
         fn = conc.methods[name]
